@@ -3,7 +3,7 @@ P (given A-ASYNCIO): association obligations at the gather sites; frame obligati
 B: adversarial schedules on the real event loop; gather_if_necessary and the placeholder replacement pass."""
 import time
 
-from checks.common import list_theory_obligations, prove, run_bounded, verifier
+from checks.common import guarded, list_theory_obligations, prove, run_bounded, verifier
 from pyvc.frames import functions_of, write_set
 from vlib.report import Ctx
 
@@ -174,3 +174,6 @@ def run(ctx: Ctx) -> None:
     frame_obligations(ctx)
     inject_obligations(ctx)
     run_bounded(ctx, "C12")
+    # every concurrent evaluation of is_valid_expression is handed ITS OWN content evaluation result (last sentence of C12)
+    from bounded import setter_pairing
+    guarded(ctx, "C12", lambda: setter_pairing.run(ctx, "C12"), what="setter-pairing harness")
